@@ -182,13 +182,18 @@ func (c20Prop) Check(c Case) Outcome {
 				w = Window{StartMs: t, EndMs: t}
 			}
 			cancelled := r.P(0.12)
-			desc := fmt.Sprintf("op%d query `%s` %v cancelled=%v", k, q, w, cancelled)
+			qcfg := c.Engine
+			if r.P(0.2) {
+				// options of this query only: the next query without options is back to the engine's settings
+				qcfg.QueryLookbackMs = Pick(r, []int64{1000, 30_000, 60_000, 420_001})
+			}
+			desc := fmt.Sprintf("op%d query `%s` %v cancelled=%v lookback=%dms", k, q, w, cancelled, qcfg.QueryLookbackMs)
 			trace = append(trace, desc)
 			var live *promql.Result
 			var qry promql.Query
 			var cerr error
 			withProcs(c.Engine.Procs, func() {
-				qry, cerr = NewQuery(long, store, c.Engine, q, w)
+				qry, cerr = NewQuery(long, store, qcfg, q, w)
 				if cerr != nil {
 					return
 				}
@@ -201,7 +206,7 @@ func (c20Prop) Check(c Case) Outcome {
 			})
 			if cerr != nil {
 				// creation errors must be the same on a fresh engine
-				_, ferr := NewQuery(engine.New(engOpts(c.Engine, nil)), store, c.Engine, q, w)
+				_, ferr := NewQuery(engine.New(engOpts(c.Engine, nil)), store, qcfg, q, w)
 				if ferr == nil {
 					o.Add("stateful-creation", fmt.Sprintf("%s: creation fails on the long-lived engine (%v) but succeeds on a fresh one\n  history: %s", desc, cerr, strings.Join(trace, " ; ")))
 					return o
@@ -210,7 +215,7 @@ func (c20Prop) Check(c Case) Outcome {
 			}
 			got := Canon(live)
 			if !cancelled {
-				fresh := RunEngine(context.Background(), store, c.Engine, q, w)
+				fresh := RunEngine(context.Background(), store, qcfg, q, w)
 				o.Count("fresh_comparisons", 1)
 				if d := Compare(got, fresh.Res); d != nil {
 					cc := c
@@ -226,7 +231,7 @@ func (c20Prop) Check(c Case) Outcome {
 				}
 			} else if got.Err == nil {
 				// a pre-cancelled query may legitimately complete only with the full result
-				fresh := RunEngine(context.Background(), store, c.Engine, q, w)
+				fresh := RunEngine(context.Background(), store, qcfg, q, w)
 				if d := Compare(got, fresh.Res); d != nil {
 					o.Add("cancelled-partial", fmt.Sprintf("%s: cancelled query returned a successful result different from the full one: %s", desc, d.Detail))
 					return o
